@@ -20,6 +20,7 @@ mkdir -p "$OUT/src/rpc"
 for f in "$REPO"/*.go; do
   case "$f" in *_test.go) ;; *) cp "$f" "$OUT/src/rpc/";; esac
 done
+cp /verif/harness/access/zz_verif_access.go.txt "$OUT/src/rpc/zz_verif_access.go"
 for m in $MODS; do
   v=$(modver github.com/hslam/$m)
   if [ -z "$v" ]; then echo "instrument: cannot resolve version of hslam/$m" >&2; exit 2; fi
